@@ -78,6 +78,7 @@ type c02Plan struct {
 	noHandler bool // H0: no finish handler is set (w mode)
 	noErrObs  bool // E0: no root monitor error observer
 	prios     bool // P1: child monitors get different priorities
+	nilRoot   bool // R0: AddEventAndWait(ev, nil) — the root monitor is created inside (w mode, triggering root)
 	cascs     []c02Casc
 	units     []c02Unit
 }
@@ -104,6 +105,8 @@ func c02Parse(p string) *c02Plan {
 			pl.noErrObs = v == 0
 		case 'P':
 			pl.prios = v == 1
+		case 'R':
+			pl.nilRoot = v == 0
 		}
 	}
 	for ci, cs := range f[1:] {
@@ -990,6 +993,9 @@ func init() {
 					}
 					if g.R.Intn(3) == 0 {
 						flags += ",P1"
+					}
+					if !ecalMode && g.R.Intn(8) == 0 {
+						flags += ",R0"
 					}
 				}
 				emit(workers, g.R.Intn(4) == 0, []int{0, 0, 0, 0, 0, 1, 1, 1, 2, 2, 2, 3, 3, 3, 4, 4, 4, 4, 5, 5}[g.R.Intn(20)], cs)
